@@ -721,8 +721,18 @@ def eval_forcing(desc, ctx):
                 st["X"], st["Y"] = np.roll(st.X, 1), np.roll(st.Y, 1)
             tk.update()
             fo.update()
+            hd = np.asarray(g.depth(st.X, st.Y), dtype=float)  # the bottom depth the GRID gives for the particle's cell
             for n in range(P):
-                col = zr[:, int(round(float(st.Y[n]))) - g.j0, int(round(float(st.X[n]))) - g.i0]
+                # the particle's own cell is the one the grid module itself uses (Grid.depth / atsea / metric): on a
+                # cell boundary it is found by its bottom depth among the neighbouring cells (all depths differ)
+                xs, ys = float(st.X[n]), float(st.Y[n])
+                cand = {(jj, ii) for jj in (math.floor(ys), math.ceil(ys)) for ii in (math.floor(xs), math.ceil(xs))
+                        if abs(jj - ys) <= 0.5 and abs(ii - xs) <= 0.5}
+                own = [c for c in cand if float(h[c[0], c[1]]) == float(hd[n])]
+                if len(own) == 0:  # (several candidates of equal depth have the same levels: any of them will do)
+                    pb.append(f"Forcing.update step {s_}: cannot tell the cell of particle {n} at ({xs}, {ys}) from Grid.depth = {hd[n]}")
+                    continue
+                col = zr[:, own[0][0] - g.j0, own[0][1] - g.i0]
                 if N >= 2:
                     m = oracle_lookup(col.tolist(), float(st.Z[n]), int(fo.K[n]), float(fo.A[n]),
                                       f"Forcing.update step {s_}, particle {n} at ({float(st.X[n]):.3f}, {float(st.Y[n]):.3f})")
